@@ -1060,3 +1060,40 @@ mod bench {
         });
     }
 }
+
+#[cfg(flacenc_verif)]
+#[doc(hidden)]
+pub mod verif_hooks {
+    use super::*;
+
+    /// Residuals of the fixed predictors of order 0..=4 as the encoder computes them.
+    pub fn fixed_errors(signal: &[i32]) -> Vec<Vec<i32>> {
+        let mut errors = FixedLpcErrors::default();
+        reset_fixed_lpc_errors(&mut errors, signal);
+        errors.iter().map(|e| e.as_ref().to_vec()).collect()
+    }
+
+    pub fn entropy_estimate(errors: &[i32], warmup_len: usize, partitions: usize) -> usize {
+        estimate_entropy(errors, warmup_len, partitions)
+    }
+
+    /// Quantised LPC parameters the encoder would use for `signal`: (coefs, shift, precision).
+    pub fn qlpc_params(config: &config::SubFrameCoding, signal: &[i32]) -> (Vec<i16>, i8, usize) {
+        let lpc_order = config.qlpc.lpc_order;
+        let lpc_coefs = perform_qlpc(config, signal);
+        let qlpc = lpc::quantize_parameters(&lpc_coefs[0..lpc_order], config.qlpc.quant_precision);
+        (
+            (0..qlpc.order()).map(|i| qlpc.coefficient(i).unwrap()).collect(),
+            qlpc.shift(),
+            qlpc.precision(),
+        )
+    }
+
+    pub fn subframe(config: &config::SubFrameCoding, samples: &[i32], bits_per_sample: u8) -> SubFrame {
+        encode_subframe(config, samples, bits_per_sample)
+    }
+
+    pub fn residual(config: &config::Prc, errors: &[i32], warmup_length: usize) -> Residual {
+        encode_residual(config, errors, warmup_length)
+    }
+}
